@@ -12,12 +12,14 @@ CLAIM = ('Decides statically that the x86-64 emitters agree with the interpreter
          'scratchpad-mask selection per address helper, the CFROUND rotate/v2-test/MXCSR constants.'
          ' For the ten integer register-form instructions and IMUL_RCP the semantics of the emitted byte sequence is decided: the handler is executed in the known-bits domain for constant instruction fields, the bytes are disassembled (objdump as trusted decoder) and interpreted on a register file of terms over r0..r7, and the result must be the term of specification 5.2 for every dst x src, shift and a set of boundary immediates (X86-HSEM, 2800 cases). Memory-form, floating-point, store and branch handlers are covered only by the structural rules above. No member of the compiler object that the handlers advance survives from one generate* call to the next (GEN-RESET).'
          ' The six memory-form integer instructions and ISTORE are validated the same way with a symbolic scratchpad: the emitted code must access exactly scratchpad + ((src + sext(imm32)) & mask) with the L1 / L2 / L3 mask the specification selects (src == dst: imm32 & L3 mask) (X86-MEM-HSEM). CFROUND: routing symbolic bits of the source register through the decoded bytes shows that MXCSR receives the reset word with bits 13-14 = ror(src, imm32) & 3, unconditionally in v1 and exactly when (ror(src, imm32) & 60) == 0 in v2 (X86-CFR-BITS, 1072 cases). Every mark written to registerUsage is the index of the instruction being translated (LW-VALUE). A handler whose emission depends on state left by earlier instructions other than the last-writer table cannot be validated per instruction: the check then stops with exit 2 rather than guessing.'
-         ' The nine floating-point instructions are validated on the decoded bytes over uninterpreted packed-double terms: the right operation on f / e / a registers, the converted scratchpad operand, the mantissa / exponent masking of FDIV_M, the scale mask of FSCAL_R (X86-FP-HSEM, 1392 cases).')
+         ' The nine floating-point instructions are validated on the decoded bytes over uninterpreted packed-double terms: the right operation on f / e / a registers, the converted scratchpad operand, the mantissa / exponent masking of FDIV_M, the scale mask of FSCAL_R (X86-FP-HSEM, 1392 cases).'
+         ' x86 CBRANCH bytes: `add dst, imm` with the immediate of 5.4.3, `test dst, 0xFF << (mod.cond + 8)`, and a `jz` whose displacement lands exactly on the code offset of the instruction after the last writer of the register (X86-CBR-HSEM, decoded bytes, 1064 cases).')
 LEVEL_NOTE = 'Trusted: clang AST of the build flags; x86 encodings of the byte templates other than the two decoded CFROUND templates; hand-written asm fragments (only their constants are cross-checked).'
 EXPLANATION = ('Rules TAB-OPC (256), LW-SIB/SPLIT-SIB (30 handlers), RCP-NOOP, CBR-BITS/CBR-TARGET, MEM-JITMASK, CFR-SIB on JitCompilerX86 vs BytecodeMachine.'
          ' X86-HSEM, GEN-RESET.'
          ' X86-MEM-HSEM, X86-CFR-BITS, LW-VALUE.'
-         ' X86-FP-HSEM.')
+         ' X86-FP-HSEM.'
+         ' X86-CBR-HSEM.')
 
 
 def run(ctx, R):
@@ -39,3 +41,4 @@ def run(ctx, R):
     x86hsem.rule_mem_hsem(ctx, R)
     jit.rule_lw_value(ctx, R, 'x86')
     x86hsem.rule_fp_hsem(ctx, R)
+    x86hsem.rule_cbranch(ctx, R)
